@@ -16,10 +16,13 @@ def remove_short_circuit_elements(network: Network, keep: list[NortenTheveninEle
     branches = network.branches
     short_circuits = [b for b in network.branches if is_short_circuit(b.element) and b.element not in keep]
     short_circuit_nodes = [(vs.node1, vs.node2) if not network.is_zero_node(vs.node1) else (vs.node2, vs.node1) for vs in short_circuits]
-    for an, rn in short_circuit_nodes:
+    for k in range(len(short_circuit_nodes)):
+        n1, n2 = short_circuit_nodes[k]
+        an, rn = (n1, n2) if not network.is_zero_node(n1) else (n2, n1)
         branches = [Branch(rn, b.node2, b.element) if b.node1 == an else b for b in branches]
         branches = [Branch(b.node1, rn, b.element) if b.node2 == an else b for b in branches]
         branches = [b for b in branches if b.node1 != b.node2]
+        short_circuit_nodes = [(rn if a == an else a, rn if r == an else r) for a, r in short_circuit_nodes]
     return Network(branches, node_zero_label=network.node_zero_label)
 
 def short_circuitify_voltage_sources(network: Network, keep: list[NortenTheveninElement] = []) -> Network:
